@@ -3,15 +3,22 @@
 package main
 
 import (
+	"bytes"
 	"fmt"
+	"math/big"
 	"strconv"
 	"strings"
 
+	"github.com/icon-project/goloop/common"
 	"github.com/icon-project/goloop/common/codec"
 	"github.com/icon-project/goloop/common/crypto"
+	"github.com/icon-project/goloop/common/db"
 	"github.com/icon-project/goloop/common/wallet"
 	"github.com/icon-project/goloop/consensus"
 	"github.com/icon-project/goloop/module"
+	"github.com/icon-project/goloop/service/contract"
+	"github.com/icon-project/goloop/service/state"
+	"github.com/icon-project/goloop/service/transaction"
 )
 
 func init() {
@@ -162,17 +169,19 @@ func c06Gen(g *Gen) {
 	for i := 0; i < g.N; i++ {
 		g.Emit("reset")
 		switch x := g.Intn(100); {
-		case x < 45:
+		case x < 30:
+			c06GenReport(g)
+		case x < 55:
 			v := c06GenVote(g)
 			g.Emit("cf v %s v %s", v, c06MutVote(g, v))
 			if g.Intn(3) == 0 { // and the symmetric question
 				v2 := c06MutVote(g, v)
 				g.Emit("cf v %s v %s", v2, v)
 			}
-		case x < 70:
+		case x < 72:
 			p := c06GenProp(g)
 			g.Emit("cf p %s p %s", p, c06MutProp(g, p))
-		case x < 75:
+		case x < 76:
 			if g.Intn(2) == 0 {
 				g.Emit("cf v %s p %s", c06GenVote(g), c06GenProp(g))
 			} else {
@@ -208,6 +217,156 @@ func c06Gen(g *Gen) {
 			}
 		}
 	}
+}
+
+// rep <rev> <blockHeight> <callOk> <from n|s|u> <hasData> <tag v|p|o> <ord lt|eq|gt|na> <ctx> <hist> <items>
+//
+//	the evidence acceptance path: a doubleSignReportTx built from the items (bytes of really signed
+//	messages, `g j` = garbage bytes), context = encoded validator list of the signer ids in <ctx>
+//	('x' = bytes that do not decode), <hist> = DSContextHistory entries height:ids;...
+func c06GenReport(g *Gen) {
+	var a, b c06Item
+	tag := "v"
+	if g.Intn(3) == 0 {
+		p := c06GenProp(g)
+		a, b = c06Item{kind: "p", p: p}, c06Item{kind: "p", p: c06MutProp(g, p)}
+		tag = "p"
+	} else {
+		v := c06GenVote(g)
+		a, b = c06Item{kind: "v", v: v}, c06Item{kind: "v", v: c06MutVote(g, v)}
+	}
+	if g.Intn(3) > 0 && !c06Genuine(a, b) { // bias to genuine conflicts: change only a content field
+		if a.kind == "v" {
+			b.v = a.v
+			b.v.ts++
+		} else {
+			b.p = a.p
+			b.p.ps = (b.p.ps + 1) % 3
+		}
+	}
+	items := []string{a.String(), b.String()}
+	ord := "lt"
+	switch g.Intn(30) {
+	case 0: // cross kind under one tag
+		if a.kind == "v" {
+			items[1] = "p " + c06GenProp(g).String()
+		} else {
+			items[1] = "v " + c06GenVote(g).String()
+		}
+	case 1:
+		items[g.Intn(2)] = fmt.Sprintf("g %d", g.Intn(50))
+	case 2:
+		items = items[:1]
+		ord = "na"
+	case 3:
+		items = append(items, a.String())
+		ord = "na"
+	case 4:
+		tag = g.Pick2("v", "p", "o")
+	}
+	if len(items) == 2 {
+		// order of the encoded bytes decides; mostly present them sorted as NewDoubleSignReport does
+		c := bytes.Compare(c06ItemBytes(items[0]), c06ItemBytes(items[1]))
+		if c > 0 && g.Intn(8) > 0 {
+			items[0], items[1] = items[1], items[0]
+			c = -c
+		}
+		ord = map[int]string{-1: "lt", 0: "eq", 1: "gt"}[c]
+	}
+	signer := a.v.s
+	height := a.v.h
+	if a.kind == "p" {
+		signer, height = a.p.s, a.p.h
+	}
+	// context: validators of the evidence height; mostly containing the signer
+	vals := []int{0, 1, 2}
+	switch g.Intn(8) {
+	case 0:
+		vals = []int{(signer + 1) % 3, (signer + 2) % 3}
+	case 1:
+		vals = []int{signer}
+	case 2:
+		vals = []int{2, 1, 0}
+	}
+	ctx := c06JoinInts(vals)
+	if g.Intn(25) == 0 {
+		ctx = "x"
+	}
+	// history: mostly an entry at or below height-2 with this validator list
+	var hist []string
+	switch g.Intn(8) {
+	case 0: // no history
+	case 1: // first entry above height-2
+		hist = append(hist, fmt.Sprintf("%d:%s", height-1, c06JoinInts(vals)))
+	case 2: // another validator list recorded
+		hist = append(hist, fmt.Sprintf("%d:%s", height-3, c06JoinInts([]int{0, 1})))
+	case 3: // superseded: right list first, another one later but still <= height-2
+		hist = append(hist, fmt.Sprintf("%d:%s", height-5, c06JoinInts(vals)), fmt.Sprintf("%d:%s", height-2, "0.3"))
+	case 4: // older other list, then the right one, then a newer one above
+		hist = append(hist, fmt.Sprintf("%d:%s", height-6, "0.3"), fmt.Sprintf("%d:%s", height-2, c06JoinInts(vals)), fmt.Sprintf("%d:%s", height-1, "1.3"))
+	default:
+		hist = append(hist, fmt.Sprintf("%d:%s", height-2-g.Intn(3), c06JoinInts(vals)))
+	}
+	h := "-"
+	if len(hist) > 0 {
+		h = strings.Join(hist, ";")
+	}
+	bh := height + g.Pick(0, 0, 1, 5, -1)
+	rev, call, from, hasData := 1, 1, "n", 1
+	switch g.Intn(25) {
+	case 0:
+		rev = 0
+	case 1:
+		call = 0
+	case 2:
+		from = "s"
+	case 3:
+		from = "u"
+	case 4:
+		hasData = 0
+	}
+	g.Emit("rep %d %d %d %s %d %s %s %s %s %s", rev, bh, call, from, hasData, tag, ord, ctx, h, strings.Join(items, " "))
+}
+
+func (g *Gen) Pick2(xs ...string) string { return xs[g.R.Intn(len(xs))] }
+
+func c06JoinInts(xs []int) string {
+	if len(xs) == 0 {
+		return "-"
+	}
+	ss := make([]string, len(xs))
+	for i, x := range xs {
+		ss[i] = strconv.Itoa(x)
+	}
+	return strings.Join(ss, ".")
+}
+
+func c06ParseInts2(s string) ([]int, bool) {
+	if s == "-" {
+		return nil, true
+	}
+	var out []int
+	for _, p := range strings.Split(s, ".") {
+		v, err := strconv.Atoi(p)
+		if err != nil || v < 0 || v > 40 {
+			return nil, false
+		}
+		out = append(out, v)
+	}
+	return out, true
+}
+
+// bytes of an item given as "v <desc>" / "p <desc>" / "g <j>"
+func c06ItemBytes(s string) []byte {
+	f := strings.Fields(s)
+	if f[0] == "g" {
+		return crypto.SHA3Sum256([]byte("verif-c06-garbage-" + f[1]))
+	}
+	it, ok := c06ParseItem(f[0], f[1])
+	if !ok {
+		panic("bad item " + s)
+	}
+	return it.ds().Bytes()
 }
 
 // ---------------------------------------------------------------- material
@@ -427,6 +586,8 @@ func (r *c06Runner) Step(t []string, o *Oracle) string {
 				"c06-decoded-evidence-fields", "decoded signer/height/type differ for %s", a)
 		}
 		return c06B01(got)
+	case "rep":
+		return r.stepReport(t, o)
 	case "log":
 		if len(t) != 3 {
 			return "bad-op"
@@ -497,4 +658,325 @@ func (r *c06Runner) Step(t []string, o *Oracle) string {
 		return "ds " + old.String()
 	}
 	return "bad-op"
+}
+
+// ---------------------------------------------------------------- report acceptance path
+
+var c06VLists = map[string]module.ValidatorList{}
+
+func c06ValidatorList(ids []int) module.ValidatorList {
+	key := c06JoinInts(ids)
+	if vl, ok := c06VLists[key]; ok {
+		return vl
+	}
+	vs := make([]module.Validator, len(ids))
+	for i, id := range ids {
+		v, err := state.ValidatorFromAddress(c06Wallet(id).Address())
+		if err != nil {
+			panic(err)
+		}
+		vs[i] = v
+	}
+	vl, err := state.ValidatorSnapshotFromSlice(db.NewMapDB(), vs)
+	if err != nil {
+		panic(err)
+	}
+	c06VLists[key] = vl
+	return vl
+}
+
+type c06Account struct {
+	state.AccountState
+	values map[string][]byte
+}
+
+func (a *c06Account) GetValue(key []byte) ([]byte, error) { return a.values[string(key)], nil }
+func (a *c06Account) SetValue(key []byte, value []byte) ([]byte, error) {
+	old := a.values[string(key)]
+	a.values[string(key)] = value
+	return old, nil
+}
+func (a *c06Account) DeleteValue(key []byte) ([]byte, error) {
+	old := a.values[string(key)]
+	delete(a.values, string(key))
+	return old, nil
+}
+
+// world context as PreValidate sees it
+type c06WC struct {
+	state.WorldContext
+	rev    module.Revision
+	height int64
+	sys    *c06Account
+}
+
+func (w *c06WC) Revision() module.Revision { return w.rev }
+func (w *c06WC) BlockHeight() int64        { return w.height }
+func (w *c06WC) GetAccountState(id []byte) state.AccountState {
+	return w.sys
+}
+func (w *c06WC) DecodeDoubleSignData(t string, d []byte) (module.DoubleSignData, error) {
+	return consensus.DecodeDoubleSignData(t, d)
+}
+func (w *c06WC) DecodeDoubleSignContext(t string, d []byte) (module.DoubleSignContext, error) {
+	return state.VerifC06DecodeDoubleSignContext(t, d)
+}
+
+// call context as the DSR handler sees it
+type c06CC struct {
+	contract.CallContext
+	wc     *c06WC
+	callOk bool
+	calls  int
+}
+
+func (c *c06CC) Revision() module.Revision                    { return c.wc.rev }
+func (c *c06CC) BlockHeight() int64                           { return c.wc.height }
+func (c *c06CC) GetAccountState(id []byte) state.AccountState { return c.wc.sys }
+func (c *c06CC) DecodeDoubleSignData(t string, d []byte) (module.DoubleSignData, error) {
+	return c.wc.DecodeDoubleSignData(t, d)
+}
+func (c *c06CC) DecodeDoubleSignContext(t string, d []byte) (module.DoubleSignContext, error) {
+	return c.wc.DecodeDoubleSignContext(t, d)
+}
+func (c *c06CC) StepAvailable() *big.Int { return big.NewInt(10_000_000) }
+func (c *c06CC) Call(h contract.ContractHandler, limit *big.Int) (error, *big.Int, *codec.TypedObj, module.Address) {
+	c.calls++
+	if c.callOk {
+		return nil, big.NewInt(1000), nil, nil
+	}
+	return fmt.Errorf("score rejects"), big.NewInt(1000), nil, nil
+}
+
+func c06ErrClass(err error, classes ...string) string {
+	if err == nil {
+		return "ok"
+	}
+	msg := fmt.Sprintf("%+v", err)
+	for i := 0; i+1 < len(classes); i += 2 {
+		if strings.Contains(msg, classes[i]) {
+			return classes[i+1]
+		}
+	}
+	return "err:" + err.Error()
+}
+
+func (r *c06Runner) stepReport(t []string, o *Oracle) string {
+	if len(t) < 10 {
+		return "bad-op"
+	}
+	rev, e1 := strconv.Atoi(t[1])
+	bh, e2 := strconv.Atoi(t[2])
+	call, e3 := strconv.Atoi(t[3])
+	from := t[4]
+	hasData, e4 := strconv.Atoi(t[5])
+	tag, ord := t[6], t[7]
+	if e1 != nil || e2 != nil || e3 != nil || e4 != nil || rev < 0 || rev > 1 || call < 0 || call > 1 || hasData < 0 || hasData > 1 ||
+		(from != "n" && from != "s" && from != "u") || (tag != "v" && tag != "p" && tag != "o") ||
+		(ord != "lt" && ord != "eq" && ord != "gt" && ord != "na") {
+		return "bad-op"
+	}
+	typ := map[string]string{"v": module.DSTVote, "p": module.DSTProposal, "o": "other"}[tag]
+	// items
+	rest := t[10:]
+	if len(rest)%2 != 0 {
+		return "bad-op"
+	}
+	var data [][]byte
+	var items []c06Item
+	allMsgs := true
+	for i := 0; i < len(rest); i += 2 {
+		if rest[i] == "g" {
+			if _, err := strconv.Atoi(rest[i+1]); err != nil {
+				return "bad-op"
+			}
+			allMsgs = false
+			items = append(items, c06Item{kind: "g"})
+		} else {
+			it, ok := c06ParseItem(rest[i], rest[i+1])
+			if !ok {
+				return "bad-op"
+			}
+			items = append(items, it)
+		}
+		data = append(data, c06ItemBytes(rest[i]+" "+rest[i+1]))
+	}
+	if len(data) == 2 {
+		c := bytes.Compare(data[0], data[1])
+		if ord != map[int]string{-1: "lt", 0: "eq", 1: "gt"}[c] {
+			return "bad-op" // the op line must state the real byte order
+		}
+	} else if ord != "na" {
+		return "bad-op"
+	}
+	// context bytes and history
+	var ctxBytes []byte
+	var ctxVals []int
+	ctxOK := t[8] != "x"
+	if ctxOK {
+		vals, ok := c06ParseInts2(t[8])
+		if !ok {
+			return "bad-op"
+		}
+		ctxVals = vals
+		dsc, err := state.VerifC06ContextOf(c06ValidatorList(vals), module.DSTVote)
+		if err != nil {
+			panic(err)
+		}
+		ctxBytes = dsc.Bytes()
+	} else {
+		ctxBytes = []byte{0x01, 0x02, 0x03}
+	}
+	sys := &c06Account{values: map[string][]byte{}}
+	histOK := false // oracle: the recorded validator list for height-2 is the context's
+	var evHeight int64
+	if len(items) > 0 && items[0].kind != "g" {
+		evHeight = items[0].ds().Height()
+	}
+	if t[9] != "-" {
+		hdb, err := contract.NewDSContextHistoryDB(sys)
+		if err != nil {
+			panic(err)
+		}
+		var best []int
+		found := false
+		first, below := true, false
+		for _, e := range strings.Split(t[9], ";") {
+			f := strings.Split(e, ":")
+			if len(f) != 2 {
+				return "bad-op"
+			}
+			h, err := strconv.Atoi(f[0])
+			vals, ok := c06ParseInts2(f[1])
+			if err != nil || !ok {
+				return "bad-op"
+			}
+			if err := hdb.Push(int64(h), c06ValidatorList(vals).Hash()); err != nil {
+				return "bad-op"
+			}
+			if first && evHeight-2 < int64(h) {
+				below = true
+			}
+			first = false
+			if !below && int64(h) <= evHeight-2 {
+				best, found = vals, true
+			}
+		}
+		histOK = found && ctxOK && c06JoinInts(best) == c06JoinInts(ctxVals)
+	}
+	revision := module.Revision(module.NoRevision)
+	if rev == 1 {
+		revision = module.AllRevision
+	}
+	wc := &c06WC{rev: revision, height: int64(bh), sys: sys}
+
+	// the transaction, through its wire form
+	var fromAddr *common.Address
+	var sig *common.Signature
+	if from != "n" {
+		fromAddr = common.AddressToPtr(c06Wallet(5).Address())
+	}
+	raw := transaction.VerifC06RawDSRTx(typ, data, ctxBytes, 1, 1000, fromAddr, nil, hasData == 1)
+	if from == "s" && hasData == 1 {
+		sb, err := c06Wallet(5).Sign(raw.ID())
+		if err != nil {
+			panic(err)
+		}
+		cs, err := crypto.ParseSignature(sb)
+		if err != nil {
+			panic(err)
+		}
+		sig = &common.Signature{Signature: cs}
+		raw = transaction.VerifC06RawDSRTx(typ, data, ctxBytes, 1, 1000, fromAddr, sig, hasData == 1)
+	}
+	var tx transaction.Transaction
+	var err error
+	if from == "n" {
+		tx, err = transaction.NewTransaction(raw.Bytes())
+		if err != nil || !transaction.VerifC06IsDSRTx(tx) {
+			o.Check(false, "c06-report-tx-does-not-parse", "NewTransaction(Bytes()) of a report: %v", err)
+			return "err"
+		}
+	} else {
+		// a report with a sender is not recognised by the binary parser (checkDSRTxBytes wants From == nil):
+		// such an object can only exist in process
+		ptx, perr := transaction.NewTransaction(raw.Bytes())
+		o.Check(perr != nil || !transaction.VerifC06IsDSRTx(ptx), "c06-report-with-sender-parses", "a DSR tx with From parses as DSR tx")
+		tx = raw
+	}
+	if hasData == 1 { // ID() of a report tx without data dereferences nil; Verify rejects it first
+		o.Check(bytes.Equal(tx.ID(), raw.ID()), "c06-report-tx-id-changes", "tx id differs after encode/decode")
+	}
+	vres := c06ErrClass(tx.Verify())
+	if vres != "ok" {
+		vres = "err"
+	}
+	if hasData == 0 {
+		o.Check(vres == "err", "c06-report-without-data-verifies", "report tx without data passes Verify")
+		return "V=" + vres + " P=- H=-"
+	}
+	pres := c06ErrClass(tx.PreValidate(wc, false),
+		"ReportDoubleSignIsDisabled", "disabled", "UnsupportedDoubleSignReport", "from",
+		"InvalidTransactionData", "decode", "NotBelongToCurrentNetwork", "net", "InvalidDoubleSignReport", "invalid")
+	hres := "none"
+	cc := &c06CC{wc: wc, callOk: call == 1}
+	// a fresh parse for the handler, so that it does not see values cached by PreValidate
+	var tx2 transaction.Transaction = transaction.VerifC06RawDSRTx(typ, data, ctxBytes, 1, 1000, fromAddr, sig, true)
+	if from == "n" {
+		tx2, _ = transaction.NewTransaction(raw.Bytes())
+	}
+	if h, err := transaction.VerifC06DSRHandler(tx2); err == nil {
+		herr, _, _ := h.ExecuteSync(cc)
+		hres = c06ErrClass(herr, "AccessDenied", "denied", "InvalidFormat", "format", "DoubleSignDataDoesntConflict", "conflict",
+			"FutureDoubleSignReport", "future", "NotValidSigner", "signer", "FailToVerifyContextData", "context", "score rejects", "call")
+		if herr == nil && cc.calls == 0 {
+			hres = "ok-nocall"
+		}
+	}
+	o.Count("rep-V=" + vres)
+	o.Count("rep-P=" + pres)
+	o.Count("rep-H=" + hres)
+
+	// ---- property oracle, from the descriptors
+	genuine := len(items) == 2 && allMsgs && c06Genuine(items[0], items[1]) &&
+		((tag == "v" && items[0].kind == "v") || (tag == "p" && items[0].kind == "p"))
+	signerInCtx := false
+	if len(items) > 0 && items[0].kind != "g" {
+		s := items[0].v.s
+		if items[0].kind == "p" {
+			s = items[0].p.s
+		}
+		for _, v := range ctxVals {
+			if v == s {
+				signerInCtx = true
+			}
+		}
+	}
+	if hres == "ok" || hres == "ok-nocall" {
+		o.Check(genuine, "c06-handler-succeeds-for-non-conflict", "DSR handler returns success (%s) for %v", hres, rest)
+		o.Check(signerInCtx && ctxOK, "c06-handler-succeeds-for-non-validator", "DSR handler succeeds, signer not in context %v", t[8])
+		o.Check(evHeight <= int64(bh), "c06-handler-succeeds-for-future-evidence", "evidence height %d, block height %d", evHeight, bh)
+		o.Check(histOK, "c06-handler-succeeds-with-unrecorded-context", "context %s is not the one recorded for height %d in %s", t[8], evHeight-2, t[9])
+		o.Check(ord != "gt", "c06-handler-succeeds-for-unordered-data", "data items in descending byte order accepted")
+	}
+	if pres == "ok" {
+		o.Check(genuine, "c06-prevalidate-passes-non-conflict", "PreValidate passes %v", rest)
+		o.Check(signerInCtx, "c06-prevalidate-passes-non-validator", "PreValidate passes although the signer is not in the context %v", t[8])
+	}
+	acc := vres == "ok" && pres == "ok" && hres == "ok"
+	if acc {
+		o.Count("rep-accepted")
+		o.Check(genuine, "c06-report-accepted-for-non-conflict", "report accepted for %v", rest)
+		o.Check(signerInCtx && ctxOK, "c06-report-accepted-non-validator", "report accepted, signer not a validator of the context %v", t[8])
+		o.Check(evHeight <= int64(bh), "c06-report-accepted-from-future", "evidence height %d, block height %d", evHeight, bh)
+		o.Check(histOK, "c06-report-accepted-with-unrecorded-context", "context %s is not the one recorded for height %d in %s", t[8], evHeight-2, t[9])
+		o.Check(from == "n" && rev == 1 && call == 1 && ord != "gt", "c06-report-accepted-wrong-envelope", "from=%s rev=%d call=%d ord=%s", from, rev, call, ord)
+		nid := c06Nids(items[0])
+		if nid != 0 && nid != 1 {
+			o.Count("rep-accepted-evidence-of-other-network") // observation: chain nid is 1, ValidateNetwork is constantly true
+		}
+	} else if genuine && signerInCtx && ctxOK && histOK && evHeight <= int64(bh) && from == "n" && rev == 1 && call == 1 && ord != "gt" && tag != "o" {
+		o.Check(false, "c06-genuine-report-rejected", "V=%s P=%s H=%s for %v", vres, pres, hres, rest)
+	}
+	return "V=" + vres + " P=" + pres + " H=" + hres
 }
